@@ -255,7 +255,7 @@ def run_native(repo, clsname, version, data):
 
 
 if __name__ == "__main__":
-    a = json.loads(sys.argv[1])
+    a = json.loads(sys.stdin.read() if sys.argv[1] == "-" else sys.argv[1])
     if isinstance(a, list):
         outs = []
         for x in a:
